@@ -160,6 +160,21 @@ theorem receivers_value :
       ("WLRecipe", "Size"), ("WordList", "Size")].all
       fun m => Facts.receivers.contains (m.1, m.2, "value")) = true := by decide
 
+/-- **All package-level state of the library**: the two shipped lists, the two exported budget
+variables (caller-owned configuration), the seven separator presets (closures over constant
+recipes) and the two read-only class tables. None is written after initialisation
+(`no_global_or_captured_writes`). A new package-level variable — a cache, a memo table, a
+`sync.Map`, a once-flag — is hidden state that could outlive a call or be shared between
+goroutines; it changes this regenerated list and breaks the obligation. -/
+theorem package_state :
+    Facts.packageVars =
+      [("AgileSyllables", "[]string"), ("AgileWords", "[]string"), ("MaxFailRate", "float64"),
+       ("MaxTrials", "int"), ("SFDigits1", "spg.SFFunction"), ("SFDigits2", "spg.SFFunction"),
+       ("SFDigitsNoAmbiguous1", "spg.SFFunction"), ("SFDigitsNoAmbiguous2", "spg.SFFunction"),
+       ("SFDigitsSymbols", "spg.SFFunction"), ("SFNone", "spg.SFFunction"), ("SFSymbols", "spg.SFFunction"),
+       ("charTypeByFlag", "map[spg.CTFlag]string"), ("charTypeNamesByFlag", "map[spg.CTFlag]string")] := by
+  decide
+
 /-- With a pointer receiver a call would leave its derived fields behind in the caller's recipe. -/
 theorem pointer_receiver_counterexample :
     let cfg : Cfg := { tbl := [], maxTrials := 1, frNum := 1, frDen := 1 }
